@@ -235,6 +235,52 @@ def h_tconst(op):
     return h
 
 
+def get_sys_shared():
+    """a model in which ONE parameter is the time constant of TWO states (REGCA1.Tg: S0_y and S1_y)"""
+    if 'sh' not in _SYS:
+        from vlib import cases
+        ss = cases.build([1, 2], lines=[dict(bus1=1, bus2=2, idx='L1')], slacks=[dict(bus=1, idx='S1')],
+                         pqs=[dict(bus=2, idx='D1', p0=0.2, q0=0.1)], setup=False,
+                         extra=[('PV', dict(bus=2, idx='G2', Vn=110.0, p0=0.1, v0=1.0)), ('REGCA1', dict(bus=2, gen='G2', idx='R1', Sn=80.0))])
+        ss.setup()
+        ss.PFlow.run()
+        ss.TDS.config.no_tqdm = 1
+        ss.TDS.init()
+        _SYS['sh'] = ss
+        _SYS['Tf0sh'] = np.array(ss.dae.Tf, dtype=float)
+    return _SYS['sh']
+
+
+def h_tconst_shared(op):
+    def h(I):
+        ss = get_sys_shared()
+        m = ss.REGCA1
+        p = m.Tg
+        addrs = [int(v.a[0]) for v in m.states.values() if v.t_const is p]
+        p.pu_coeff = I.to_obj(np.ones(1))
+        p.vin = I.arr('T_in0')
+        p.v = p.vin * p.pu_coeff
+        ss.dae.Tf = I.to_obj(_SYS['Tf0sh'].copy())
+        if I.symbolic:
+            ss.TDS.Teye = kvshim.spdiag(list(ss.dae.Tf))
+        else:
+            from kvxopt import spdiag
+            ss.TDS.Teye = spdiag(ss.dae.Tf.tolist())
+        tf_before = ss.dae.Tf.copy()
+        val = I.real('newT')
+        if op == 'alter_v':
+            m.alter('Tg', 'R1', val)
+        else:
+            m.set('Tg', 'R1', 'v', val)
+        out = [('the parameter is the time constant of two states of this model', len(addrs) == 2)]
+        for a in addrs:
+            out.append((f'dae.Tf of every state that uses the altered time constant follows it (state at address {a})', EQ(ss.dae.Tf[a], val)))
+            out.append((f'mass matrix diagonal of every such state follows it (address {a})', EQ(ss.TDS.Teye[a, a], val)))
+        out.append(('other time constants untouched', AND(*[EQ(ss.dae.Tf[i], tf_before[i], tol=0.0) for i in range(ss.dae.n) if i not in addrs])))
+        return out
+    return h
+
+
 def structural():
     """every flagged parameter of every shipped model gets the coefficient of its own flag"""
     res = []
@@ -364,6 +410,30 @@ def h_param_add(non_zero, non_negative, non_positive):
     return h
 
 
+def h_json_after_alter(I):
+    """two exports through the real JSON writer with an alteration in between: the second one holds the altered input value"""
+    import andes.io.json as JS
+    ss = get_sys()
+    m = ss.Shunt
+    p = m.b
+    k = I.arr('k0', 'k1')
+    for v in k:
+        I.assume(LT(0, v))
+    vin0 = I.arr('vin0', 'vin1')
+    p.pu_coeff, p.vin, p.v = k.copy(), vin0.copy(), vin0 * k
+    m.get_inputs(refresh=True)
+    m.cache.refresh()
+    dump = pysym.rebind(JS._dump_system, json=NS(dumps=lambda out, indent=2: out))
+    first = dump(ss, True)
+    val = I.real('value')
+    m.alter('b', m.idx.v[0], val)
+    second = dump(ss, True)
+    rows1, rows2 = first['Shunt'], second['Shunt']
+    return [('the first export holds the input-base values', AND(EQ(rows1[0]['b'], vin0[0], tol=0.0), EQ(rows1[1]['b'], vin0[1], tol=0.0))),
+            ('an export after an alteration holds the altered input-base value', EQ(rows2[0]['b'], val, tol=0.0)),
+            ('... and leaves the other device alone', EQ(rows2[1]['b'], vin0[1], tol=0.0))]
+
+
 def h_export(I):
     """ModelData.as_dict on parameters with and without an output converter, hidden and None-input parameters"""
     from collections import OrderedDict
@@ -394,6 +464,8 @@ def job(spec):
         return H.run(f'System.calc_pu_coeff on the stock model {arg}', h_stock(arg), timeout_ms=20000, region=lambda v, c: c)
     if kind == 'padd':
         return H.run(f'NumParam.add[non_zero={arg[0]},non_negative={arg[1]},non_positive={arg[2]}]', h_param_add(*arg), region=lambda v, c: c)
+    if kind == 'json':
+        return H.run('JSON writer before and after Model.alter', h_json_after_alter, region=lambda v, c: c)
     if kind == 'export':
         return H.run('ModelData.as_dict', h_export, region=lambda v, c: c.split(' of device')[0])
     if kind == 'pu':
@@ -402,6 +474,8 @@ def job(spec):
     if kind == 'seq':
         return H.run('alter sequence ' + '>'.join(f'{o}@{d}' for o, d in arg), h_alter_seq(arg), timeout_ms=20000,
                      region=lambda v, c: 'alter sequence: ' + c.split('): ')[-1].split(' of device')[0])
+    if kind == 'tcsh':
+        return H.run(f'time constant shared by two states via {arg}', h_tconst_shared(arg), timeout_ms=20000, region=lambda v, c: c.split(' (')[0])
     if kind == 'tc':
         return H.run(f'time constant via {arg}', h_tconst(arg), timeout_ms=20000, region=lambda v, c: c)
     if kind == 'struct':
@@ -436,7 +510,7 @@ def main():
     if not thorough:
         seqs = [s for i, s in enumerate(seqs) if (i + core.seed()) % 2 == 0]
     jobs += [('seq', s) for s in seqs]
-    jobs += [('tc', o) for o in ('alter_v', 'alter_vin', 'set_v')] + [('struct', 0), ('export', 0)] + [('stock', mn) for mn in STOCK_KIND] + [('padd', f) for f in ((0, 0, 0), (1, 0, 0), (0, 1, 0), (0, 0, 1), (1, 1, 0), (1, 0, 1))]
+    jobs += [('tc', o) for o in ('alter_v', 'alter_vin', 'set_v')] + [('tcsh', o) for o in ('alter_v', 'set_v')] + [('struct', 0), ('export', 0), ('json', 0)] + [('stock', mn) for mn in STOCK_KIND] + [('padd', f) for f in ((0, 0, 0), (1, 0, 0), (0, 1, 0), (0, 0, 1), (1, 1, 0), (1, 0, 1))]
     ck.merge(core.pmap(job, jobs))
     ck.sample({'sequence': 'alter_v@0 > alter_vin@1', 'claim': 'v = vin*k, export = altered vin'})
     ck.finish()
